@@ -57,6 +57,7 @@ func genConcCase(t *rapid.T, futurePct, faultPct int, maxClients int) *ConcCase 
 		c.Clients = append(c.Clients, ops)
 	}
 	c.Sched = DrawChoices(t, 8*total+8, "sched")
+	c.ReadOwn = DrawBool(t, 40, "readOwn")
 	if !c.Free && (EnvStr("VERIF_COMPACTOR", "") == "1" || DrawBool(t, 20, "compactor")) {
 		c.Compactor = true
 		// the compaction's own storage calls need schedule entries too
